@@ -1,7 +1,7 @@
 (* C06 — every accepted change is rebroadcast to every live ancestor, and to nothing else.
    Statements only; proofs in Store/GraphWalk.v and Store/ProofsTop.v. *)
 From Verif Require Import Base.Bytes Store.GraphCount Store.GraphWalk Store.Model Store.ProofsRows Store.ProofsHash Store.ProofsTop.
-From Verif Require Import Properties.StoreExample.
+From Verif Require Import Store.Concurrent Store.ProofsClosure Store.ProofsClosureTie Properties.StoreExample.
 Local Open Scope N_scope.
 
 (* for an accepted request on node id, the ids a on whose subject up.<a>.<id>[.<parent>] the
@@ -25,6 +25,27 @@ Theorem C06_closure :
      exists l, gswalk (s_edges st) (sel_of incl) x l /\ gendpoint x l = a).
 Proof. exact pubs_exact. Qed.
 Print Assumptions C06_closure.
+
+(* the set the checker compares the observed rebroadcast subjects with — the executable closure [ancestors]
+   evaluated on the dump taken after the request (Store/Check.v, spec_c06_step) — is that same set: the
+   worklist search is sound, complete and never runs out of fuel (ProofsClosure.ancestors_spec), and on the dump
+   of a state it follows exactly the store's edges (ProofsClosureTie.ancestors_walks) *)
+Theorem C06_spec_is_closure :
+  forall st o, wf st -> Inv st -> edges_ok st -> op_ok o -> reply_of (handle st o) = 0 ->
+    let st' := state_of (handle st o) in
+    forall a, In a (pubs_of (handle st o)) <->
+      In a (ancestors (project st') (match o with NodePts _ _ => true | EdgePts _ _ _ => false end)
+                      (match o with NodePts id _ => id | EdgePts id _ _ => id end)).
+Proof.
+  intros st o W HI HO Hop Hr st' a.
+  destruct (handle_inv st o W HI Hop) as [W' _].
+  assert (HO' : edges_ok st') by (apply (run_edges_ok [o] st W HI HO); constructor; [exact Hop|constructor]).
+  rewrite (C06_complete st o W HI Hop Hr a). fold st'.
+  destruct o as [id pts|id par pts].
+  - symmetry. apply (ancestors_walks st' W' HO' false).
+  - symmetry. apply (ancestors_walks st' W' HO' true).
+Qed.
+Print Assumptions C06_spec_is_closure.
 
 (* refused requests publish nothing *)
 Theorem C06_only_accepted :
